@@ -330,22 +330,133 @@ theorem meterType_pred (o : List Nat) (h : Obis6 o) :
   · have : obisText o ≠ obisText meterTypeCode := fun he => ho (obisText_inj h (by decide) he)
     simp [ho, this]
 
+def ctPred (el : Kamstrup.Element) : Bool :=
+  match el.obis with | some o => obisText o == Kamstrup.meterTypeObis | none => false
+
+theorem isCtMeter_eq (items : List Kamstrup.Element) :
+    Kamstrup.isCtMeter items =
+      match items.find? ctPred with
+      | some el => (match el.value with | .str s => Kamstrup.ctPrefix.isPrefixOf s | _ => false)
+      | none => false := rfl
+
+theorem find?_congr' {α : Type} (p q : α → Bool) (l : List α) (h : ∀ x ∈ l, p x = q x) :
+    l.find? p = l.find? q := by
+  induction l with
+  | nil => rfl
+  | cons a l ih =>
+    rw [List.find?_cons, List.find?_cons, h a List.mem_cons_self,
+      ih (fun x hx => h x (List.mem_cons_of_mem _ hx))]
+
 theorem isCt_eq (l : KamList) (h : l.WF) :
     Kamstrup.isCtMeter (⟨none, .str l.version⟩ :: l.elems.map toElem) = kamIsCt l := by
-  unfold Kamstrup.isCtMeter kamIsCt kamMeterType
-  rw [List.find?_cons]
+  rw [isCtMeter_eq]
+  unfold kamIsCt kamMeterType
+  rw [List.find?_cons, show ctPred ⟨none, .str l.version⟩ = false from rfl]
   simp only [List.find?_map]
-  have hc : l.elems.find? ((fun el : Kamstrup.Element =>
-        match el.obis with | some o => obisText o == Kamstrup.meterTypeObis | none => false) ∘ toElem) =
-      l.elems.find? (fun e => decide (e.obis = [1, 1, 96, 1, 1, 255])) := by
-    apply List.find?_congr
-    intro e he
-    exact meterType_pred e.obis (h.2.2.2 e he).1
-  rw [hc]
+  rw [find?_congr' (ctPred ∘ toElem) (fun e => decide (e.obis = [1, 1, 96, 1, 1, 255])) l.elems
+    (fun e he => meterType_pred e.obis (h.2.2.2 e he).1)]
   cases l.elems.find? (fun e => decide (e.obis = [1, 1, 96, 1, 1, 255])) with
   | none => rfl
   | some e =>
     obtain ⟨o, v, p⟩ := e
     cases v <;> simp [toElem, toKField] <;> rfl
+
+
+/-! ### normalisation -/
+
+theorem normLoop_int (ct : Bool) (o : List Nat) (name : String) (hne : (name == field_METER_DATETIME) = false)
+    (a b c dd e f : Nat) (ho : o = [a, b, c, dd, e, f]) (hn : obisNameMap.lookup (cdeText c dd e) = some name)
+    (z : Int) (rest : List Kamstrup.Element) (d : Dict) :
+    Kamstrup.normLoop ct (⟨some o, .int z⟩ :: rest) d =
+      Kamstrup.normLoop ct rest (d.set name (valOfScale (Kamstrup.scaleFor ct o) z)) := by
+  subst ho
+  rw [Kamstrup.normLoop]
+  simp only [hn, hne]
+  cases Kamstrup.scaleFor ct [a, b, c, dd, e, f] with
+  | none => simp [valOfScale]
+  | some s =>
+    by_cases hs : s = 0
+    · simp [valOfScale, hs]
+    · simp [valOfScale, hs]
+
+theorem normLoop_step (hF : ScaledOK) (ct : Bool) (el : KamElem) (h : el.WF) (rest : List Kamstrup.Element)
+    (d : Dict) :
+    Kamstrup.normLoop ct (toElem el :: rest) d =
+      Kamstrup.normLoop ct rest (d.set (obisName el.obis) (kamVal ct el.obis el.value)) := by
+  obtain ⟨o, v, p⟩ := el
+  obtain ⟨ho6, hv, hk, hclk⟩ := h
+  simp only at ho6 hv hk hclk
+  obtain ⟨a, b, c, dd, e, f, rfl⟩ := obis6_cases ho6.1
+  simp only [kamKnown] at hk
+  obtain ⟨name, hn⟩ := Option.isSome_iff_exists.mp hk
+  have hname : obisName [a, b, c, dd, e, f] = name := by
+    simp only [obisName, fieldName, hn]
+  rw [hname] at hclk ⊢
+  cases v with
+  | text s =>
+    have hne : (name == field_METER_DATETIME) = false := by
+      simp only [beq_eq_false_iff_ne, field_METER_DATETIME]; exact hclk
+    rw [Kamstrup.normLoop]
+    simp only [toElem, toKField, hn, hne, kamVal]
+    simp
+  | u32 z =>
+    have hne : (name == field_METER_DATETIME) = false := by
+      simp only [beq_eq_false_iff_ne, field_METER_DATETIME]; exact hclk
+    simp only [toElem, toKField, kamVal]
+    rw [normLoop_int ct _ name hne a b c dd e f rfl hn, valOfScale_spec hF ct _ ho6 z hv]
+  | u16 z =>
+    have hne : (name == field_METER_DATETIME) = false := by
+      simp only [beq_eq_false_iff_ne, field_METER_DATETIME]; exact hclk
+    have hz : z < 4294967296 := by have : z < 65536 := hv; omega
+    simp only [toElem, toKField, kamVal]
+    rw [normLoop_int ct _ name hne a b c dd e f rfl hn, valOfScale_spec hF ct _ ho6 z hz]
+  | clock t =>
+    simp only at hclk
+    subst hclk
+    rw [Kamstrup.normLoop]
+    simp only [toElem, toKField, hn, kamVal]
+    simp [field_METER_DATETIME]
+
+theorem normLoop_ok (hF : ScaledOK) (ct : Bool) : ∀ (es : List KamElem) (d : Dict), (∀ e ∈ es, e.WF) →
+    Kamstrup.normLoop ct (es.map toElem) d =
+      .ok (es.foldl (fun d e => d.set (obisName e.obis) (kamVal ct e.obis e.value)) d) := by
+  intro es
+  induction es with
+  | nil => intro d _; rfl
+  | cons e es ih =>
+    intro d h
+    rw [List.map_cons, normLoop_step hF ct e (h e List.mem_cons_self),
+      ih _ (fun q hq => h q (List.mem_cons_of_mem _ hq))]
+    rfl
+
+theorem normLoop_version (ct : Bool) (s : List Nat) (rest : List Kamstrup.Element) (d : Dict) :
+    Kamstrup.normLoop ct (⟨none, .str s⟩ :: rest) d = Kamstrup.normLoop ct rest (d.set "list_ver_id" (.str s)) := by
+  rw [Kamstrup.normLoop]
+  simp [field_OBIS_LIST_VER_ID, field_METER_DATETIME]
+
+theorem normalize_ok (hF : ScaledOK) (l : KamList) (h : l.WF) :
+    Kamstrup.normalize (⟨none, .str l.version⟩ :: l.elems.map toElem) = .ok (kamExpected l) := by
+  unfold Kamstrup.normalize
+  rw [isCt_eq l h, normLoop_version, normLoop_ok hF _ l.elems _ h.2.2.2]
+  rfl
+
+theorem decodeBody_ok (hF : ScaledOK) (l : KamList) (h : l.WF) :
+    Kamstrup.decodeBody (encKamList l) = .dict (kamExpected l) := by
+  unfold Kamstrup.decodeBody
+  rw [notificationBody_enc l h]
+  simp only [normalize_ok hF l h]
+
+theorem decodeFrame_ok (hF : ScaledOK) (hd : Header) (hh : hd.WF) (hc : hd.clock ≠ .null)
+    (l : KamList) (h : l.WF) :
+    Kamstrup.decodeFrame (encHeader hd ++ encKamList l) =
+      .dict ((kamExpected l).set "meter_datetime" (.dt (match hd.clock with
+        | .tagged d => expectedDT d | .untagged d => expectedDT d | .null => default))) := by
+  unfold Kamstrup.decodeFrame
+  rw [llc_clock hd hh, notificationBody_enc l h]
+  simp only [bind_ok, normalize_ok hF l h]
+  match hd.clock, hc with
+  | .null, hc => exact absurd rfl hc
+  | .tagged d, _ => rfl
+  | .untagged d, _ => rfl
 
 end Amshan.KamstrupRT
